@@ -13,5 +13,5 @@ open(p,'w').write(s.replace(old,new,1))
 PY
 [ $? -eq 0 ] || { git checkout -- .; exit 3; }
 cargo build --offline 2>&1 | grep -E "^error" | head -3
-for p in "${@:4}"; do (cd /verif && python3 tools/check.py $p | grep -E "VIOLATION|UNDECIDED|^OK|FAILED-OBL" ); done
+for p in "${@:4}"; do (cd /verif && VERIF_EVIDENCE_DIR=/tmp/mut-evidence python3 tools/check.py $p | grep -E "VIOLATION|UNDECIDED|^OK|FAILED-OBL" ); done
 git checkout -- .
